@@ -144,4 +144,67 @@ inline LinResult lin_check_key(const std::vector<LinOp>& ops, uint64_t initial) 
   return res;
 }
 
+// ---------------------------------------------- whole-map linearizability -----
+// Operations of a map with multi-key operations (empty, clear, scans); used where every operation is
+// supposed to be atomic (mutex_db). State = std::map<key, value id>.
+struct MapOp {
+  enum T { GET, INSERT, REMOVE, EMPTY, CLEAR, SCAN, SCAN_FROM, SCAN_RANGE } type = GET;
+  std::string key, key2;
+  bool fwd = true;
+  int64_t halt = -1;
+  uint64_t call = 0, ret = 0;
+  bool ok = false;
+  uint64_t value = 0;
+  std::vector<std::pair<std::string, uint64_t>> visited;
+  int thread = 0, op = 0;
+};
+using MapState = std::map<std::string, uint64_t>;
+
+inline std::vector<std::pair<std::string, uint64_t>> model_scan(const MapState& m, const MapOp& o) {
+  std::vector<std::pair<std::string, uint64_t>> r;
+  auto lim = [&] { return o.halt > 0 && static_cast<int64_t>(r.size()) >= o.halt; };
+  auto fwd = [&](auto it, auto end) { for (; it != end && !lim(); ++it) r.emplace_back(it->first, it->second); };
+  auto rev = [&](auto it, auto end) { for (; it != end && !lim(); ++it) r.emplace_back(it->first, it->second); };
+  if (o.type == MapOp::SCAN) { if (o.fwd) fwd(m.begin(), m.end()); else rev(m.rbegin(), m.rend()); }
+  else if (o.type == MapOp::SCAN_FROM) { if (o.fwd) fwd(m.lower_bound(o.key), m.end()); else rev(std::make_reverse_iterator(m.upper_bound(o.key)), m.rend()); }
+  else if (o.key < o.key2) fwd(m.lower_bound(o.key), m.lower_bound(o.key2));
+  else if (o.key > o.key2) rev(std::make_reverse_iterator(m.upper_bound(o.key)), std::make_reverse_iterator(m.upper_bound(o.key2)));
+  return r;
+}
+
+// returns true iff some linearization explains all results
+inline bool lin_check_map(const std::vector<MapOp>& ops, const MapState& initial, MapState* a_final = nullptr) {
+  const size_t n = ops.size();
+  if (n > 24) return true;  // capped
+  std::set<std::pair<uint32_t, MapState>> seen;
+  std::vector<std::pair<uint32_t, MapState>> stack{{0, initial}};
+  const uint32_t full = (1u << n) - 1;
+  while (!stack.empty()) {
+    auto f = std::move(stack.back());
+    stack.pop_back();
+    if (!seen.insert(f).second) continue;
+    if (f.first == full) { if (a_final) *a_final = f.second; return true; }
+    uint64_t min_ret = UINT64_MAX;
+    for (size_t i = 0; i < n; i++) if (!(f.first & (1u << i)) && ops[i].ret < min_ret) min_ret = ops[i].ret;
+    for (size_t i = 0; i < n; i++) {
+      if (f.first & (1u << i)) continue;
+      const MapOp& o = ops[i];
+      if (o.call > min_ret) continue;
+      MapState ns = f.second;
+      bool fits = false;
+      auto it = ns.find(o.key);
+      switch (o.type) {
+        case MapOp::GET: fits = o.ok ? (it != ns.end() && it->second == o.value) : (it == ns.end()); break;
+        case MapOp::INSERT: if (o.ok) { fits = it == ns.end(); ns[o.key] = o.value; } else fits = it != ns.end(); break;
+        case MapOp::REMOVE: if (o.ok) { fits = it != ns.end(); if (fits) ns.erase(it); } else fits = it == ns.end(); break;
+        case MapOp::EMPTY: fits = o.ok == ns.empty(); break;
+        case MapOp::CLEAR: fits = true; ns.clear(); break;
+        default: fits = model_scan(ns, o) == o.visited; break;
+      }
+      if (fits) stack.emplace_back(f.first | (1u << i), std::move(ns));
+    }
+  }
+  return false;
+}
+
 }  // namespace sim
